@@ -82,6 +82,12 @@ func c03Alphabet(tier string) []seqSym {
 		{Name: "EVAL EXPIRE", Args: []string{"EVAL", "return tile38.call('EXPIRE','k1','a',100)", "0"}, Model: [][]string{{"EXPIRE", "k1", "a", "100"}}},
 		{Name: "EVALNA DROP+RENAME", Args: []string{"EVALNA", "tile38.call('DROP','k2'); return tile38.pcall('RENAME','k1','k2')", "0"}, Model: [][]string{{"DROP", "k2"}, {"RENAME", "k1", "k2"}}},
 	}
+	// a collection larger than one scan batch of the log rewrite, and the rewrite itself
+	fill := seqSym{Name: "@FILL k1 f00..f39", Args: []string{"@FILL", "k1", "40"}}
+	for i := 0; i < 40; i++ {
+		fill.Model = append(fill.Model, []string{"SET", "k1", fmt.Sprintf("f%02d", i), "POINT", "1", fmt.Sprint(i)})
+	}
+	a = append(a, fill, seqSym{Name: "AOFSHRINK", Args: []string{"AOFSHRINK"}, Model: [][]string{}})
 	return a
 }
 
@@ -92,6 +98,18 @@ func c03Apply(c *Cli, sym seqSym) rv {
 		vsched.Sleep(int64(sec * float64(stdtime.Second)))
 		vsched.Quiesce()
 		return rv{K: '+', S: "advanced"}
+	}
+	if sym.Args[0] == "@FILL" {
+		var last rv
+		for _, cmd := range sym.Model {
+			last = c.Do(cmd...)
+		}
+		return last
+	}
+	if sym.Args[0] == "AOFSHRINK" {
+		r := c.Do("AOFSHRINK")
+		vsched.Quiesce() // the rewrite never sleeps: it has finished when nothing is runnable
+		return r
 	}
 	return c.Do(sym.Args...)
 }
@@ -191,6 +209,9 @@ func checkC03(job *Job, res *Result) {
 			res.Distinct(fnv(d1))
 			// (c) every file-operation boundary as a crash point
 			for k := k0; k <= kStop; k++ {
+				if sym.Args[0] == "@FILL" {
+					break // 40 commands, not one: a crash in between legitimately leaves a prefix of them
+				}
 				cd := fmt.Sprintf("%s/crash%d", x.dir, k)
 				if err := vos.Materialise(k, dir, cd); err != nil {
 					panic(err)
